@@ -418,8 +418,13 @@ func c16InvalRound(t *testing.T, run *vlib.Run, round int) {
 			map[string]any{"round": round, "read": l.c16InvalRead, "reads_of_this_document_just_before": tail})
 	}
 
-	// ---- scripted: a GetActive holding the pre-update document (documents of their own, no other readers)
-	for si := 0; si < 2; si++ {
+	// ---- scripted (documents of their own, no other readers): a reader is parked right after its bucket read of
+	// the pre-update document; update k is imported and passes the feed; the reader continues.
+	//   getactive        the read precedes GetActive's cache value: nothing is there to remove (finding D3)
+	//   get-rev, get-cv  the loading placeholder already exists (Get creates it before loading), so the invalidation
+	//                    arrives WHILE the value is loading: Remove has to unlink the placeholder, otherwise the load
+	//                    completes with the pre-update channels and stays cached
+	for si, shape := range []string{"getactive", "getactive", "get-rev", "get-rev", "get-cv"} {
 		ds := newDoc(fmt.Sprintf("r%ds%d", round, si))
 		d.db.WaitForPendingChanges(t)
 		for k := 1; k <= 2; k++ { // two plain updates first, so that the held document is itself a metadata-only version
@@ -434,6 +439,19 @@ func c16InvalRound(t *testing.T, run *vlib.Run, round int) {
 		}
 		k := 3
 		coll.revisionCache.Remove(ctx, ds.id, ds.rev)
+		parkedVer, shapeSig, readerCall := "", "getactive-read-bucket-before-update-and-populated-cache-after-feed-removal", "revisionCache.GetActive(doc)"
+		switch shape {
+		case "get-rev":
+			parkedVer, shapeSig, readerCall = ds.rev, "get-by-revid-read-bucket-then-invalidated-while-loading", "revisionCache.Get(doc, revID): placeholder created, then"
+		case "get-cv":
+			cur, gerr := coll.GetDocument(ctx, ds.id, DocUnmarshalSync)
+			if gerr != nil || cur.HLV == nil {
+				run.Inconclusive("invalidation script: no current version")
+				continue
+			}
+			parkedVer, shapeSig, readerCall = cur.HLV.GetCurrentVersionString(), "get-by-cv-read-bucket-then-invalidated-while-loading", "revisionCache.Get(doc, currentCV): placeholder created, then"
+			coll.revisionCache.Remove(ctx, ds.id, parkedVer)
+		}
 		var res DocumentRevision
 		var rerr error
 		done := make(chan struct{})
@@ -442,7 +460,11 @@ func c16InvalRound(t *testing.T, run *vlib.Run, round int) {
 			defer close(done)
 			d.armPark(ds.id)
 			close(armed)
-			res, rerr = coll.revisionCache.GetActive(ctx, ds.id)
+			if shape == "getactive" {
+				res, rerr = coll.revisionCache.GetActive(ctx, ds.id)
+			} else {
+				res, rerr = coll.revisionCache.Get(ctx, ds.id, parkedVer, RevCacheDontLoadBackupRev)
+			}
 		}()
 		<-armed
 		select {
@@ -466,12 +488,25 @@ func c16InvalRound(t *testing.T, run *vlib.Run, round int) {
 		}
 		heldGot, _, _ := c16ChanIndex(res.Channels, ds.id)
 		run.Count("scripted_histories", 1)
+		run.Count("scripted_histories_"+shape, 1)
+		if shape == "get-cv" {
+			// the import gave the document a new version: what a read by the old version returns is not judged
+			if _, err := coll.revisionCache.Get(ctx, ds.id, parkedVer, RevCacheDontLoadBackupRev); err == nil {
+				run.Count("scripted_old_cv_still_served", 1)
+			}
+		}
 		// reads that start now started after update k was seen on the feed
-		for _, kind := range []string{"cache-get-rev", "cache-getactive", "getrev-rev", "revision-channels"} {
+		for _, kind := range []string{"peek", "cache-get-rev", "cache-getactive", "getrev-rev", "revision-channels"} {
 			seen := int(ds.seen[0].Load())
 			var chs base.Set
 			var err error
 			switch kind {
+			case "peek":
+				rev, found := coll.revisionCache.Peek(ctx, ds.id, ds.rev)
+				if !found {
+					continue
+				}
+				chs = rev.Channels
 			case "cache-get-rev":
 				var rev DocumentRevision
 				rev, err = coll.revisionCache.Get(ctx, ds.id, ds.rev, RevCacheDontLoadBackupRev)
@@ -494,14 +529,14 @@ func c16InvalRound(t *testing.T, run *vlib.Run, round int) {
 			run.Count("reads_judged", 1)
 			run.Count("scripted_reads_judged", 1)
 			if got < seen {
-				sig := "C16|invalidation|scripted|getactive-read-bucket-before-update-and-populated-cache-after-feed-removal|later-read-serves-stale-channels"
+				sig := "C16|invalidation|scripted|" + shapeSig + "|later-read-serves-stale-channels"
 				run.Violation("no-stale-read-after-invalidation", sig,
 					fmt.Sprintf("doc %s rev %s: update %d (channel c%d-%s) was imported at sequence %d and the change cache moved past it; a %s started afterwards returned the channels of update %d: %v", ds.id, ds.rev, k, k, ds.id, seq, kind, got, chs.ToArray()),
 					map[string]any{"round": round, "doc": ds.id, "rev": ds.rev, "script": []string{
 						"Remove(doc, rev) from the revision cache",
-						"reader: revisionCache.GetActive(doc) - parked right after its bucket read of the document (update " + fmt.Sprint(k-1) + ")",
+						"reader: " + readerCall + " parked right after its bucket read of the document (update " + fmt.Sprint(k-1) + ")",
 						fmt.Sprintf("writer: raw user-xattr write (update %d), on-demand import (no new revision), wait until changeCache.nextSequence > %d", k, seq),
-						fmt.Sprintf("reader released: GetActive returns channels of update %d and leaves them in the cache", heldGot),
+						fmt.Sprintf("reader released: it returns the channels of update %d; the value it loaded must not be resident", heldGot),
 						kind + " started now returns update " + fmt.Sprint(got),
 					}})
 			}
